@@ -67,7 +67,7 @@ class C18(Check):
             cfg = hist.gen_hist_case(self.rng, algs=tuple(a for a in ALGS if a != "NSDER") if user else ALGS, n_gen=self.rng.choice([4, 5]))
             if i % 5 == 2:
                 # multi-feature scenarios in turn, starting with stagnant generations of single-objective DE (a checkpoint follows every generation)
-                cfg = hist.gen_scenario_case(self.rng, 2 + i // 5, ALGS, n_gen=5) or cfg
+                cfg = hist.gen_scenario_case(self.rng, [2, 2, 3, 4, 5, 0, 1][(i // 5) % 7], ALGS, n_gen=5) or cfg
             if self.rng.random() < 0.4 and cfg["alg"] != "DE":
                 cfg["F"] = None
             cfg["user_ops"] = kinds[(i // 3) % 3] if user else False
